@@ -700,6 +700,38 @@ def with_mixed_names(rng: random.Random, case: "Case") -> "Case":
     return rename_case(case, dict(zip(names, new)))
 
 
+def gen_scoretie_election(rng: random.Random, m=(2, 5)):
+    """approval elections in which EVERY project costs the same amount per supporting VOTER (cost = r x number of supporters), built
+    from a few distinct ballots with multiplicities 1..4: projects with different approval scores tie on price per supporter (first
+    Phragmen load, first Equal Shares price, greedy density under Cost_Sat-like measures), while their numbers of distinct
+    supporting ballots are equal or ordered the other way; binding budget"""
+    sub = rng.getrandbits(48)
+    r = random.Random(sub)
+    k = r.randint(*m)
+    names = r.sample(NAME_POOL, k)
+    nb = r.randint(2, 4)
+    mult = [r.choice([1, 1, 2, 2, 3, 4]) for _ in range(nb)]
+    if len(set(mult)) == 1:
+        mult[0] += 1
+    appr = [[x for x in names if r.random() < 0.5] for _ in range(nb)]
+    for x in names:
+        if not any(x in a for a in appr):
+            r.choice(appr).append(x)
+    rate = F(r.choice([1, 1, 2, F(1, 2), F(3, 2)]))
+    score = {x: sum(mu for a, mu in zip(appr, mult) if x in a) for x in names}
+    projects = [(x, rate * score[x]) for x in names]
+    costs = [c for _, c in projects]
+    tot = sum(costs, F(0))
+    lo = max(costs)
+    budget = r.choice([lo, lo + min(costs), tot - min(costs) if tot - min(costs) >= lo else lo, lo + (tot - lo) * F(r.randint(0, 4), 4)])
+    ballots = []
+    for a, mu in zip(appr, mult):
+        for _ in range(mu):
+            ballots.append(sorted(a))
+    r.shuffle(ballots)
+    return Case(projects, budget, "app", ballots, seed=sub)
+
+
 def gen_neartie_election(rng: random.Random, m=(2, 5), n=(2, 5)):
     """cardinal elections whose per-project price-per-utility values are CLOSE without being equal: every score is a
     multiple of a large N plus 0..2, so cost / (total score) differs between projects by about 1/N**2 (below any
